@@ -1,5 +1,6 @@
 """C05 — NSGA-II selection: exact size, references only, rank- then crowding-elitist (deap/tools/emo.py)."""
 import itertools
+import math
 from fractions import Fraction as Fr
 
 from lib import Case, fbits
@@ -8,19 +9,25 @@ from deap.tools import emo
 
 ANCHORS = [("deap/tools/emo.py", ["selNSGA2", "assignCrowdingDist", "sortNondominated", "sortLogNondominated"])]
 LEVEL = "proof"
-RULE = ("sel: populations of n<=30 individuals with 2..4 objectives (weights of mixed sign and magnitude), every k in 0..n+2 "
-        "for n<=6 and 6 values of k otherwise, both nd values; families grid/duplicates/pairwise-distinct/antichain/layers "
-        "(fronts of size 1 and 2)/chain, plus every multiset of n<=4 points of {0,1,2}^2; end-to-end model comparison on the "
-        "'exact' family (integer values, 2 or 4 objectives, every front's range a power of two); crowd: direct calls of "
-        "assignCrowdingDist on arbitrary lists. Non-trivial = a selection that cuts a front (0 < k < n) or a crowd call with "
-        "at least 3 individuals")
+RULE = ("sel (streams cycled round-robin, every seed runs every stream): populations of n<=30 individuals (plus antichains of "
+        "40/64/80) with 2..4 objectives, weights of mixed sign and magnitude, every k in 0..n+2 for n<=6 and 8 values of k "
+        "otherwise, both nd values; value families: integer grids, duplicates, pairs, pairwise-distinct, antichain, layers "
+        "(fronts of size 1 and 2), chain, all-negative / mixed-sign, decimal fractions, near-constant objective "
+        "(1000.0039..1000.0041), values 0..3 ulps apart; the fitnesses carry stale crowding_dist attributes in every third "
+        "case and every fourth case chains a second selNSGA2 call on the result of the first; every multiset of n<=4 points "
+        "of {0,1,2}^2; end-to-end model comparison on the 'exact' family (integer values, 2 or 4 objectives, every front's "
+        "range a power of two); crowd: direct calls of assignCrowdingDist on arbitrary lists of the same value families. "
+        "Non-trivial = a selection that cuts a front (0 < k < n) or a crowd call with at least 3 individuals")
 EXHAUSTIVE = {"quick": False, "thorough": False}
 TIME_BUDGET = {"quick": 55, "thorough": 840}
+CASE_TIMEOUT = 2           # selecting among <= 80 individuals takes milliseconds; 2 s without an answer is a hang
+MIN_CASES = 40
 TRUSTED = ["IEEE-754: on the 'exact' family all quotients/sums of assignCrowdingDist are exact, so the Rat model equals the "
            "float implementation; elsewhere distances are compared with relative tolerance 1e-9 and the cut is replayed on "
            "the implementation's own (float) distances transported exactly",
            "CPython list.sort/sorted stability and reverse=True semantics (modelled by List.mergeSort with a strict key test)"]
-ASSUMPTIONS = ["every individual is evaluated, all fitnesses have the same number (>= 1, >= 2 for nd='log') of objectives, finite "
+ASSUMPTIONS = ["an individual is listed once in the population (pop=[a,b,a,c] returns the object a twice: outside 'none twice')",
+               "every individual is evaluated, all fitnesses have the same number (>= 1, >= 2 for nd='log') of objectives, finite "
                "values, non-zero weights, k >= 0; individuals and their fitness objects are distinct objects",
                "the crowding formula is checked where the statement defines it: objective values pairwise distinct"]
 EXPLANATION = ("C05.* are proved for any list of fronts satisfying C04's specification, and both back-ends are proved to "
@@ -149,8 +156,8 @@ def eval_crowd(d):
         return Case(d, [], [], oracle="fitness.values are not the assigned values (inexact input)", tag="inexact")
     dists = [ind.fitness.crowding_dist for ind in pop] if pop else []
     orc = None
-    if pairwise_distinct(vals):
-        for j, (got, exp) in enumerate(zip(dists, formula(vals))):
+    if pairwise_distinct(want):
+        for j, (got, exp) in enumerate(zip(dists, formula(want))):
             if not close(got, exp):
                 orc = "assignCrowdingDist: individual %d gets %r, the statement's formula gives %s" % (j, got, exp)
                 break
@@ -159,54 +166,80 @@ def eval_crowd(d):
                 tol=None if d.get("exact") else 1e-9)
 
 
+def one_call(objs, valsF, w, k, nd, exact, lines, expect):
+    """one selNSGA2 call on the objects `objs` (whose assigned values are `valsF`, exact rationals taken from the
+    case description).  Appends the protocol lines; returns (chosen objects, oracle message or None)."""
+    n = len(objs)
+    index_of = dict((id(o), i) for i, o in enumerate(objs))
+    wF = [Fr(x) for x in w]
+    # weighted values from the case description: value * weight (a negative weight minimises)
+    wv = [tuple(v * x for v, x in zip(t, wF)) for t in valsF]
+    chosen = emo.selNSGA2(objs, k, nd)
+    ids = [index_of.get(id(o)) for o in chosen]
+    orc = contract(nd, ids, k, n, wv, valsF)
+    if None in ids:
+        return chosen, orc
+    # ---- correspondence, piecewise: the cut replayed on the fronts and distances of fresh copies
+    sorter = emo.sortNondominated if nd == "standard" else emo.sortLogNondominated
+    pop2 = build(w, [[sfr(x) for x in t] for t in valsF])
+    idx2 = dict((id(o), i) for i, o in enumerate(pop2))
+    fronts = sorter(pop2, k)
+    for f in fronts:
+        emo.assignCrowdingDist(f)
+    fr_ids = [[idx2[id(o)] for o in f] for f in fronts]
+    last_d = [o.fitness.crowding_dist for o in fronts[-1]] if fronts else []
+    lines.append("C05 cut %s %s %d" % (";".join(idtok(f) if f else "-" for f in fr_ids) if fr_ids else "-",
+                                      ",".join(dist_tok(x) for x in last_d) if last_d else "-", k))
+    expect.append(idtok(ids))
+    for f in ([fronts[-1]] + ([fronts[0]] if len(fronts) > 1 else [])) if fronts else []:
+        fv = [valsF[idx2[id(o)]] for o in f]
+        l, e = crowd_lines(fv, [o.fitness.crowding_dist for o in f], exact)
+        lines.append(l)
+        expect.append(e)
+    if exact:
+        lines.append("C05 sel %s %s %d %s" % (",".join(sfr(x) for x in wF), ptok(wv), k,
+                                               "std" if nd == "standard" else "log"))
+        expect.append(idtok(ids))
+    return chosen, orc
+
+
 def eval_sel(d):
     w = d["w"]
     n = len(d["pop"])
+    valsF = [tuple(Fr(v) for v in t) for t in d["pop"]]
     lines, expect, orc = [], [], None
     for nd in d["nds"]:
         pop = build(w, d["pop"])
-        index_of = dict((id(o), i) for i, o in enumerate(pop))
-        wv = [tuple(Fr(x) for x in ind.fitness.wvalues) for ind in pop]
-        vals = [tuple(Fr(x) for x in ind.fitness.values) for ind in pop]
-        if vals != [tuple(Fr(v) for v in t) for t in d["pop"]]:
+        got = [tuple(Fr(x) for x in ind.fitness.values) for ind in pop]
+        gotw = [tuple(Fr(x) for x in ind.fitness.wvalues) for ind in pop]
+        if gotw != [tuple(v * Fr(x) for v, x in zip(t, w)) for t in valsF]:
+            return Case(d, [], [], oracle="fitness.wvalues %r are not value*weight for values %r, weights %r"
+                        % (gotw[:3], d["pop"][:3], w), tag="inexact")
+        if got != valsF:
             return Case(d, [], [], oracle="fitness.values are not the assigned values (inexact input)", tag="inexact")
-        k = d["k"]
-        chosen = emo.selNSGA2(pop, k, nd)
-        ids = [index_of.get(id(o)) for o in chosen]
-        dist_after = [getattr(ind.fitness, "crowding_dist", None) for ind in pop]
-        # ---- oracle: the statement on the returned objects
+        # what a generational loop hands to the selection: fitnesses that already carry a crowding distance
+        if d.get("stale"):
+            for ind, sd in zip(pop, d["stale"]):
+                if sd is not None:
+                    ind.fitness.crowding_dist = INF if sd == "inf" else float(Fr(sd))
+        chosen, o1 = one_call(pop, valsF, w, d["k"], nd, d.get("exact", False), lines, expect)
         if orc is None:
-            orc = contract(nd, ids, k, n, wv, vals, dist_after)
-        if None in ids:
-            continue
-        # ---- correspondence, piecewise: the cut replayed on the implementation's fronts and distances
-        sorter = emo.sortNondominated if nd == "standard" else emo.sortLogNondominated
-        pop2 = build(w, d["pop"])
-        idx2 = dict((id(o), i) for i, o in enumerate(pop2))
-        fronts = sorter(pop2, k)
-        for f in fronts:
-            emo.assignCrowdingDist(f)
-        fr_ids = [[idx2[id(o)] for o in f] for f in fronts]
-        last_d = [o.fitness.crowding_dist for o in fronts[-1]] if fronts else []
-        lines.append("C05 cut %s %s %d" % (";".join(idtok(f) if f else "-" for f in fr_ids) if fr_ids else "-",
-                                          ",".join(dist_tok(x) for x in last_d) if last_d else "-", k))
-        expect.append(idtok(ids))
-        # distances of the last front (and of the first one): tolerance unless the case is in the exact family
-        for f in ([fronts[-1]] + ([fronts[0]] if len(fronts) > 1 else [])) if fronts else []:
-            fv = [tuple(Fr(x) for x in o.fitness.values) for o in f]
-            l, e = crowd_lines(fv, [o.fitness.crowding_dist for o in f], d.get("exact", False))
-            lines.append(l)
-            expect.append(e)
-        # ---- end to end (only where float arithmetic is exact, so ties are the same ties)
-        if d.get("exact"):
-            lines.append("C05 sel %s %s %d %s" % (",".join(sfr(Fr(x)) for x in w), ptok(wv), k,
-                                                   "std" if nd == "standard" else "log"))
-            expect.append(idtok(ids))
+            orc = o1
+        if d.get("k2") is not None and o1 is None and chosen:
+            # second selection among the survivors of the first (they carry the distances of the first call)
+            index_of = dict((id(o), i) for i, o in enumerate(pop))
+            vals2 = [valsF[index_of[id(o)]] for o in chosen]
+            _, o2 = one_call(list(chosen), vals2, w, d["k2"], nd, False, lines, expect)
+            if orc is None and o2 is not None:
+                orc = "second call on the survivors of selNSGA2(k=%d): %s" % (d["k"], o2)
     return Case(d, lines, expect, orc, tag=d.get("tag", "sel"), nontrivial=(0 < d["k"] < n),
                 tol=None if d.get("exact") else 1e-9)
 
 
-def contract(nd, ids, k, n, wv, vals, dist_after):
+def contract(nd, ids, k, n, wv, vals):
+    """The statement, on the returned objects.  Crowding distances are computed here from the statement's definition
+    (never read from the objects), and only where the statement constrains them: inside the partially taken front,
+    when its objective values are pairwise distinct.  Equal distances may be kept/dropped in any order."""
     name = "selNSGA2(k=%d, nd=%r)" % (k, nd)
     if len(ids) != min(k, n):
         return "%s returned %d individuals, min(k, n) = %d" % (name, len(ids), min(k, n))
@@ -226,29 +259,17 @@ def contract(nd, ids, k, n, wv, vals, dist_after):
     if len(partial) > 1:
         return "%s took more than one front partially: %s" % (name, partial)
     if partial:
-        kept = [i for i in ids if depth[i] == partial[0]]
-        dropped = [i for i in omitted if depth[i] == partial[0]]
-        for i in kept + dropped:
-            if dist_after[i] is None:
-                return "%s: no crowding distance assigned to individual %d of the cut front" % (name, i)
-        worst_kept = min(dist_after[i] for i in kept)
-        best_dropped = max(dist_after[i] for i in dropped)
-        if worst_kept < best_dropped:
-            return "%s kept an individual with crowding distance %r and dropped one with %r" % (
-                name, worst_kept, best_dropped)
-    # crowding formula, where the statement defines it
-    if pairwise_distinct(vals):
-        by_depth = {}
-        for i in range(n):
-            by_depth.setdefault(depth[i], []).append(i)
-        seen_depths = set(depth[i] for i in ids)
-        for dd in sorted(seen_depths):
-            members = by_depth[dd]
-            exp = formula([vals[i] for i in members])
-            for i, e in zip(members, exp):
-                if dist_after[i] is None or not close(dist_after[i], e):
-                    return "%s: individual %d (front %d) has crowding distance %r, the statement's formula gives %s" % (
-                        name, i, dd, dist_after[i], e)
+        members = [i for i in range(n) if depth[i] == partial[0]]
+        fvals = [vals[i] for i in members]
+        if pairwise_distinct(fvals):
+            dist = dict(zip(members, formula(fvals)))
+            kept = [i for i in ids if depth[i] == partial[0]]
+            dropped = [i for i in omitted if depth[i] == partial[0]]
+            wk = min(kept, key=lambda i: dist[i])
+            bd = max(dropped, key=lambda i: dist[i])
+            if dist[wk] < dist[bd] and not close(dist[wk], dist[bd]):
+                return ("%s kept individual %d with crowding distance %s and dropped individual %d with %s (front %d)"
+                        % (name, wk, dist[wk], bd, dist[bd], partial[0]))
     return None
 
 
@@ -294,34 +315,47 @@ def exact_ok(w, popvals):
     return True
 
 
-def gen_pop(rng, n, m):
-    kind = rng.choice(["grid3", "grid5", "grid9", "distinct", "distinct", "antichain", "layers", "chain", "dups", "pairs"])
+INT_KINDS = ["grid3", "distinct", "antichain", "layers", "grid5", "chain", "dups", "distinct", "pairs", "grid9"]
+FLOAT_KINDS = ["neg", "frac", "nearrange", "mixed", "neartie"]
+NEAR_BASES = [0.3, 0.1 + 0.2, 0.7, 1.1, 2.675, 1000.004, 123456.789]
+
+
+def ulps(x, j):
+    for _ in range(abs(j)):
+        x = math.nextafter(x, math.inf if j > 0 else -math.inf)
+    return x
+
+
+def fl(x):
+    """exact rational of the double nearest to x, as a protocol token"""
+    return sfr(Fr(float(x)))
+
+
+def gen_pop(rng, n, m, kind):
     if kind.startswith("grid"):
         wdt = int(kind[4:])
         pop = [[rng.randrange(wdt) for _ in range(m)] for _ in range(n)]
     elif kind == "distinct":
-        cols = []
-        for _ in range(m):
-            c = rng.sample(range(0, 4 * n + 4), n)
-            cols.append(c)
+        cols = [rng.sample(range(0, 4 * n + 4), n) for _ in range(m)]
         pop = [[cols[i][j] for i in range(m)] for j in range(n)]
     elif kind == "antichain":
         xs = sorted(rng.sample(range(0, 3 * n + 3), n))
         ys = sorted(rng.sample(range(0, 3 * n + 3), n), reverse=True)
-        pop = [[xs[j], ys[j]] + [rng.randrange(2) for _ in range(m - 2)] for j in range(n)]
+        extra = [rng.sample(range(0, 3 * n + 3), n) for _ in range(m - 2)]
+        pop = [[xs[j], ys[j]] + [e[j] for e in extra] for j in range(n)]
         rng.shuffle(pop)
     elif kind == "layers":
         # stacked antichains: fronts of prescribed sizes including 1 and 2
         sizes, left = [], n
         while left > 0:
-            s = min(left, rng.choice([1, 2, 2, 3, 5, 8]))
-            sizes.append(s)
-            left -= s
+            sz = min(left, rng.choice([1, 2, 2, 3, 5, 8]))
+            sizes.append(sz)
+            left -= sz
         pop, off = [], 0
-        for s in sizes:
-            xs = sorted(rng.sample(range(0, 40), s))
-            ys = sorted(rng.sample(range(0, 40), s), reverse=True)
-            for j in range(s):
+        for sz in sizes:
+            xs = sorted(rng.sample(range(0, 40), sz))
+            ys = sorted(rng.sample(range(0, 40), sz), reverse=True)
+            for j in range(sz):
                 pop.append([xs[j] + off, ys[j] + off] + [off] * (m - 2))
             off += 50
         rng.shuffle(pop)
@@ -335,12 +369,43 @@ def gen_pop(rng, n, m):
     elif kind == "dups":
         pts = [[rng.randrange(4) for _ in range(m)] for _ in range(max(1, n // 3))]
         pop = [list(rng.choice(pts)) for _ in range(n)]
-    else:
-        # pairs: every point twice (duplicate fitness, distinct objects)
+    elif kind == "pairs":
+        # every point twice (duplicate fitness, distinct objects)
         pts = [[rng.randrange(6) for _ in range(m)] for _ in range((n + 1) // 2)]
-        pop = (pts + [list(p) for p in pts])[:n]
+        pop = (pts + [list(q) for q in pts])[:n]
         rng.shuffle(pop)
-    return kind, pop
+    elif kind == "neg":
+        # all raw values negative (distinct per objective): a running maximum started at 0.0 is wrong here
+        cols = [rng.sample(range(-4 * n - 40, -1), n) for _ in range(m)]
+        pop = [[cols[i][j] for i in range(m)] for j in range(n)]
+    elif kind == "mixed":
+        pop = [[rng.randrange(9) - 4 for _ in range(m)] for _ in range(n)]
+    elif kind == "frac":
+        # decimal fractions of both signs (not dyadic): the doubles are transported exactly
+        seen = [set() for _ in range(m)]
+        pop = []
+        for _ in range(n):
+            q = []
+            for i in range(m):
+                while True:
+                    x = round(rng.uniform(-50, 50), 3)
+                    if x not in seen[i] or rng.random() < 0.1:
+                        seen[i].add(x)
+                        break
+                q.append(fl(x))
+            pop.append(q)
+    elif kind == "nearrange":
+        # an antichain whose first objective is almost constant: 1000.0039 .. 1000.0041 (non-zero range, "close")
+        ys = sorted(rng.sample(range(-2 * n, 3 * n + 3), n), reverse=True)
+        xs = sorted(rng.sample(range(0, 20), n) if n <= 20 else range(n))
+        extra = [rng.sample(range(0, 3 * n + 3), n) for _ in range(m - 2)]
+        pop = [[fl(1000.0039 + xs[j] * 1e-5), ys[j]] + [e[j] for e in extra] for j in range(n)]
+        rng.shuffle(pop)
+    else:
+        # neartie: values a few ulps apart around non-dyadic doubles
+        bases = [rng.sample(NEAR_BASES, 2) for _ in range(m)]
+        pop = [[fl(ulps(rng.choice(bases[i]), rng.randint(-3, 3))) for i in range(m)] for _ in range(n)]
+    return pop
 
 
 def ks_for(rng, n):
@@ -349,14 +414,44 @@ def ks_for(rng, n):
     return sorted(set([0, 1, n - 1, n, n + 2, rng.randint(1, n), rng.randint(1, n), n // 2]))
 
 
-def sel_case(w, pop, k, tag, exact=False):
-    return {"kind": "sel", "w": list(w), "pop": [list(map(str, p)) for p in pop], "k": k,
-            "nds": ["standard", "log"] if len(w) >= 2 else ["standard"], "tag": tag, "exact": exact}
+def stale_for(rng, n):
+    """crowding distances left on the fitnesses by an earlier generation: arbitrary, mostly wrong"""
+    mode = rng.randrange(3)
+    if mode == 0:
+        return ["0"] * n
+    if mode == 1:
+        return [rng.choice(["inf", "0", "1/2", "3", None]) for _ in range(n)]
+    return [sfr(Fr(rng.randint(0, 64), 16)) for _ in range(n)]
+
+
+def sel_case(w, pop, k, tag, exact=False, stale=None, k2=None):
+    d = {"kind": "sel", "w": list(w), "pop": [list(map(str, q)) for q in pop], "k": k,
+         "nds": ["standard", "log"] if len(w) >= 2 else ["standard"], "tag": tag, "exact": exact}
+    if stale is not None:
+        d["stale"] = stale
+        d["tag"] = tag + "/stale"
+    if k2 is not None:
+        d["k2"] = k2
+        d["tag"] = d["tag"] + "/chain"
+    return d
+
+
+def sel_cases(rng, it, kind, n, m):
+    pop = gen_pop(rng, n, m, kind)
+    w = rand_weights(rng, m)
+    sp = [list(map(str, q)) for q in pop]
+    ex = exact_ok(w, sp)
+    stale = stale_for(rng, n) if it % 3 == 0 else None
+    for k in ks_for(rng, n):
+        k2 = None
+        if it % 4 == 1 and k >= 2:
+            k2 = rng.randint(1, max(1, min(k, n) - 1))
+        yield sel_case(w, pop, k, "sel/%s/m=%d%s" % (kind, m, "/exact" if ex else ""), exact=ex, stale=stale, k2=k2)
 
 
 def generate(tier, rng, mult):
     thorough = tier == "thorough"
-    # exhaustive small part: multisets over {0,1,2}^2 (a random order each), every k, both back-ends; exact family where it applies
+    # exhaustive small part: multisets over {0,1,2}^2 (a random order each), every k, both back-ends
     points = list(itertools.product([0, 1, 2], repeat=2))
     small = []
     for n in range(1, (6 if thorough else 5)):
@@ -366,50 +461,70 @@ def generate(tier, rng, mult):
     nrand = (9000 if thorough else 900) * mult
     per = max(1, len(small) // max(1, nrand // 3))
     si = 0
+    ms = [2, 3, 2, 4, 3]
+    ns = [1, 2, 3, 4, 5, 6, 8, 10, 12, 16, 20, 25, 30]
     for it in range(nrand):
         # a slice of the exhaustive part
         for _ in range(per + (1 if thorough else 0)):
             if si < len(small):
-                p = list(small[si])
+                q = list(small[si])
                 si += 1
-                rng.shuffle(p)
+                rng.shuffle(q)
                 w = rand_weights(rng, 2)
-                ex = exact_ok(w, [list(map(str, q)) for q in p])
-                for k in range(0, len(p) + 3):
-                    yield sel_case(w, p, k, "exh/n=%d%s" % (len(p), "/exact" if ex else ""), exact=ex)
-        r = rng.random()
-        m = rng.choice([2, 2, 3, 3, 4])
-        if r < 0.6:
-            n = rng.choice([1, 2, 3, 4, 5, 6, 8, 10, 12, 16, 20, 25, 30])
-            kind, pop = gen_pop(rng, n, m)
-            w = rand_weights(rng, m)
-            ex = exact_ok(w, [list(map(str, q)) for q in pop])
-            for k in ks_for(rng, n):
-                yield sel_case(w, pop, k, "sel/%s/m=%d%s" % (kind, m, "/exact" if ex else ""), exact=ex)
-        elif r < 0.8:
+                ex = exact_ok(w, [list(map(str, x)) for x in q])
+                stale = stale_for(rng, len(q)) if si % 3 == 0 else None
+                for k in range(0, len(q) + 3):
+                    yield sel_case(w, q, k, "exh/n=%d%s" % (len(q), "/exact" if ex else ""), exact=ex, stale=stale)
+        stream = it % 6
+        m = ms[(it // 6) % len(ms)]
+        if stream in (0, 3):
+            kind = INT_KINDS[(it // 3) % len(INT_KINDS)]
+            for c in sel_cases(rng, it, kind, rng.choice(ns), m):
+                yield c
+        elif stream == 1:
+            kind = FLOAT_KINDS[(it // 6) % len(FLOAT_KINDS)]
+            n = rng.choice([3, 4, 5, 6, 8, 10, 12, 16, 20])
+            for c in sel_cases(rng, it, kind, n, 2 if kind == "nearrange" and (it // 6) % 2 == 0 else m):
+                yield c
+        elif stream == 2:
             # exact family by rejection: small integer grids, 2 or 4 objectives
-            m = rng.choice([2, 2, 4])
+            m2 = [2, 2, 4][(it // 6) % 3]
             for _ in range(30):
                 n = rng.choice([3, 4, 5, 6, 8, 10, 12])
                 wdt = rng.choice([2, 3, 5, 9])
-                pop = [[rng.randrange(wdt) for _ in range(m)] for _ in range(n)]
-                w = rand_weights(rng, m)
-                if exact_ok(w, [list(map(str, q)) for q in pop]):
+                pop = [[rng.randrange(wdt) for _ in range(m2)] for _ in range(n)]
+                w = rand_weights(rng, m2)
+                if exact_ok(w, [list(map(str, x)) for x in pop]):
+                    stale = stale_for(rng, n) if (it // 6) % 2 == 0 else None
                     for k in ks_for(rng, n):
-                        yield sel_case(w, pop, k, "sel/exactgrid%d/m=%d/exact" % (wdt, m), exact=True)
+                        yield sel_case(w, pop, k, "sel/exactgrid%d/m=%d/exact" % (wdt, m2), exact=True, stale=stale)
                     break
-        else:
+        elif stream == 4:
             # direct crowding-distance calls on arbitrary lists (not necessarily a front)
+            kinds = INT_KINDS + FLOAT_KINDS
+            kind = kinds[(it // 6) % len(kinds)]
             n = rng.choice([0, 1, 2, 3, 4, 5, 7, 10, 15])
-            m = rng.choice([1, 2, 3, 4])
-            kind, pop = gen_pop(rng, n, max(m, 2)) if n else ("empty", [])
-            pop = [p[:m] for p in pop]
-            w = rand_weights(rng, m)
-            sp = [list(map(str, q)) for q in pop]
-            ex = bool(pop) and m in (1, 2, 4) and all(
-                is_pow2_or_zero(max(Fr(p[i]) for p in sp) - min(Fr(p[i]) for p in sp)) for i in range(m))
-            yield {"kind": "crowd", "w": w, "pop": sp, "tag": "crowd/%s/m=%d%s" % (kind, m, "/exact" if ex else ""),
+            m1 = [1, 2, 3, 4][(it // 6) % 4]
+            pop = [q[:m1] for q in gen_pop(rng, n, max(m1, 2), kind)] if n else []
+            w = rand_weights(rng, m1)
+            sp = [list(map(str, x)) for x in pop]
+            ex = bool(pop) and m1 in (1, 2, 4) and all(
+                is_pow2_or_zero(max(Fr(x[i]) for x in sp) - min(Fr(x[i]) for x in sp)) for i in range(m1))
+            yield {"kind": "crowd", "w": w, "pop": sp, "tag": "crowd/%s/m=%d%s" % (kind, m1, "/exact" if ex else ""),
                    "exact": ex}
+        else:
+            # a front larger than any "small input" shortcut: one big antichain, cut at a small k
+            if (it // 6) % (2 if thorough else 6) == 0:
+                n = [40, 64, 80][(it // 36) % 3]
+                kind = ["antichain", "nearrange", "neg"][(it // 12) % 3]
+                m3 = 2 if kind != "neg" else 3
+                pop = gen_pop(rng, n, m3, "antichain" if kind == "neg" else kind)
+                if kind == "neg":
+                    pop = [[-1 - x for x in q] for q in pop]
+                w = rand_weights(rng, m3)
+                for k in sorted(set([2, n // 8, n // 4 - 1, n // 2])):
+                    yield sel_case(w, pop, k, "sel/big%d/%s" % (n, kind), exact=False,
+                                   stale=stale_for(rng, n) if (it // 6) % 4 == 0 else None)
 
 
 def shrink(d):
@@ -419,10 +534,20 @@ def shrink(d):
             e = dict(d)
             e["pop"] = d["pop"][:i] + d["pop"][i + 1:]
             e["exact"] = False
+            if d.get("stale"):
+                e["stale"] = d["stale"][:i] + d["stale"][i + 1:]
             if "k" in d:
                 e["k"] = min(d["k"], n + 1)
             yield e
     if d["kind"] == "sel":
+        if d.get("k2") is not None:
+            e = dict(d)
+            e["k2"] = None
+            yield e
+        if d.get("stale"):
+            e = dict(d)
+            e["stale"] = None
+            yield e
         if len(d["nds"]) > 1:
             for nd in d["nds"]:
                 e = dict(d)
